@@ -21,3 +21,9 @@ Definition scratch (p : position) : N := scratch_hash gen_basis p.
 Require Import Tps.
 Definition tps_parse := Tps.parse_tps gen_basis.
 Definition tps_format := Tps.format_tps.
+
+(* symmetry/canonical.go with the regenerated basis *)
+Require Import Symmetry.
+Definition sym_symmetries := Symmetry.symmetries gen_basis.
+Definition sym_canonical := Symmetry.canonical gen_basis.
+Definition sym_transform (sz : N) (i : nat) (m : rmove) := Symmetry.transform_move (nth i (Symmetry.syms (Z.of_N sz)) (fun x y => (x, y))) m.
